@@ -314,8 +314,9 @@ def clause2_ret(ctx, P, cg, own):
                     t = t[1]
                 return isinstance(t, tuple) and t and t[0] == "param"
             closes = [i for k, i in v.calls() if k < limit and i.id != (f.insts[rt[3]].id if (may_fail_tail and rt is not None) else None) and
+                      not (rc is not None and rc < 0 and _decides_failure(P, v, i)) and      # the call whose own failure is reported
                       any(given(P.term(f, a)) for a in i.a) and
-                      (reaches(i, ("buffered_socket_close", "socket_close", "free_connection")) or
+                      (reaches(i, ("buffered_socket_close", "free_connection")) or
                        any(P.srcname_of(t) in ("close", "buffered_socket_close", "socket_close") for t in cg.targets(f, i)))]
             if closes and bad is None:
                 bad = (v, "closes what it was handed (%s at %s)" % ("/".join(sorted(P.srcname_of(t) for t in cg.targets(f, closes[0]))) or "?", closes[0].loc))
